@@ -7,7 +7,7 @@
    client?, still existing?), the per-path CDN session, the configured CDN secret (on/off).
    Muxers of the paths cam1 and other always exist (hlsAlwaysRemux); the path ghost has none.
 
-   Layer 1 (Open / OpenCDN / Kick / Expire / KickCDN / Req with ServedImpl) follows the code:
+   Layer 1 (Open / OpenBearer / Kick / Expire / KickCDN / Req with ServedImpl) follows the code:
    the multivariant playlist creates a session iff the path manager admits the client (a CDN
    request creates the path's CDN session without authentication); media playlists, segments
    and parts are served to a CDN request iff the path's CDN session exists, otherwise iff
@@ -22,6 +22,7 @@ EXTENDS VerifCommon, SequencesExt
 
 CONSTANTS MaxS,            \* sessions created per behaviour
           CDNConfigured,   \* hlsCDNSecret set?
+          WideIPs,         \* FALSE: sessions are opened from 4 of the 6 addresses only (quick tier bound)
           ExpireAny        \* FALSE: only session 1 may expire (generation bound: expiry costs 10 s of wall time)
 
 AI == INSTANCE AuthInternal WITH Profiles <- {}, Big <- FALSE,
@@ -32,10 +33,24 @@ Ghost  == "ghost"                    \* a path without stream
 \* client addresses (forwarded by the trusted proxy). "The same IP" is equality of addresses: the set
 \* holds addresses whose text is a prefix of another's (10.0.0.1 / 10.0.0.12 / 10.0.0.123,
 \* 2001:db8::1 / 2001:db8::12), inside and outside the network of the IP-restricted user
-IPs    == {"10.0.0.1", "10.0.0.12", "10.0.0.123", "10.0.1.5", "2001:db8::1", "2001:db8::12"}
+AllIPs == {"10.0.0.1", "10.0.0.12", "10.0.0.123", "10.0.1.5", "2001:db8::1", "2001:db8::12"}
+\* the addresses sessions are opened from in the bounded model (requests are judged for all of AllIPs)
+IPs    == IF WideIPs THEN AllIPs ELSE {"10.0.0.1", "10.0.0.12", "10.0.1.5", "2001:db8::12"}
 Creds  == {"alice", "carol", "dave", "erin", "bad", "none"}
 Kinds  == {"playlist", "segment", "part"}
-Auths  == {"none", "cdn", "wrong"}   \* Authorization header: absent, Bearer <CDN secret>, Bearer <something else>
+\* Authorization header of a request:
+\*   none absent                      basic     Basic alice:pw (credentials, no session secret)
+\*   cdn  Bearer <the CDN secret>     wrong     Bearer <another token>
+\*   bare Bearer  (empty token)       barespace Bearer followed by a space
+\*   lower bearer (empty token)       lowercdn  bearer <the CDN secret> (scheme in lower case)
+\* ("the CDN secret" is a fixed text; whether the server is configured with it is CDNConfigured)
+BearerToks == {"cdn", "wrong", "bare", "barespace", "lower", "lowercdn"}
+Auths  == {"none", "basic"} \cup BearerToks
+\* "carrying the configured CDN secret": a secret is configured and the request carries exactly it.
+\* With no secret configured NO Bearer value carries it. The statement is silent about the case
+\* of the scheme: a lower-case scheme with the right secret is left open (may be served).
+CarriesCDNSecret(cdnConf, auth) == cdnConf /\ auth \in {"cdn", "lowercdn"}
+BearerIPs == {"10.0.0.1", "10.0.1.5"}
 Places == {"cookie", "query"}
 
 \* configured users (action read unless stated)
@@ -51,11 +66,14 @@ PassOf(c) == IF c = "none" THEN "" ELSE IF c = "bad" THEN "wrong" ELSE "pw"
 NetHas(n) == CASE n = "10.0.0.0/24" -> {"10.0.0.1", "10.0.0.12", "10.0.0.123"}
 IPok(u, ip) == \E i \in 1..Len(u.ips) : ip \in NetHas(u.ips[i])
 \* "an authorized client": C01's statement (EntryF / GrantsLo / CredMatch) for action read on that path
-Admit(p, c, ip) ==
+AdmitF(p, c, ip) ==
     LET r == AI!Req("read", p, UserOf(c), PassOf(c), "", ip, TRUE, "none") IN
     \E i \in 1..Len(Users) :
         AI!EntryF(Users[i].ips = <<>>, IPok(Users[i], ip), AI!GrantsLo(Users[i], r),
                   AI!IsAny(Users[i].user), AI!CredMatch(Users[i], r))
+\* (a constant table: TLC evaluates it once)
+AdmitTab == [x \in (Paths \cup {Ghost}) \X Creds \X AllIPs |-> AdmitF(x[1], x[2], x[3])]
+Admit(p, c, ip) == AdmitTab[<<p, c, ip>>]
 
 \* ------------------------------------------------------------------ layer 2: the statement
 \* ss: sequence of sessions [path, ip, adm, alive]; sid: the secret the request carries
@@ -63,7 +81,7 @@ Admit(p, c, ip) ==
 ValidSession(ss, p, sid, ip) ==
     sid \in 1..Len(ss) /\ ss[sid].alive /\ ss[sid].path = p /\ ss[sid].ip = ip /\ ss[sid].adm
 ServedOK(served, ss, cdnConf, p, sid, ip, auth) ==
-    served => (ValidSession(ss, p, sid, ip) \/ (cdnConf /\ auth = "cdn"))
+    served => (ValidSession(ss, p, sid, ip) \/ CarriesCDNSecret(cdnConf, auth))
 
 \* ------------------------------------------------------------------ layer 1: the code
 VARIABLES sess, cdn
@@ -83,10 +101,13 @@ Open(p, c, ip) ==
        THEN Len(sess) < MaxS /\ sess' = Append(sess, [path |-> p, ip |-> ip, adm |-> TRUE, alive |-> TRUE])
        ELSE UNCHANGED sess
     /\ UNCHANGED cdn
-\* GET <p>/index.m3u8 with the CDN secret
-OpenCDN(p, ip) ==
-    /\ CDNConfigured /\ p \in Paths /\ ip \in IPs
-    /\ cdn' = [cdn EXCEPT ![p] = TRUE] /\ UNCHANGED sess
+\* GET <p>/index.m3u8 with a Bearer authorization b: the exact configured CDN secret creates the
+\* path's CDN session; anything else is an anonymous client (a token is no credential of the
+\* internal method), which no configured user admits: nothing changes
+OpenBearer(p, b, ip) ==
+    /\ p \in Paths /\ b \in BearerToks /\ ip \in BearerIPs
+    /\ cdn' = IF CDNConfigured /\ b = "cdn" THEN [cdn EXCEPT ![p] = TRUE] ELSE cdn
+    /\ UNCHANGED sess
 Kick(i) ==
     /\ i \in 1..Len(sess) /\ sess[i].alive
     /\ sess' = [sess EXCEPT ![i].alive = FALSE] /\ UNCHANGED cdn
@@ -99,21 +120,21 @@ KickCDN(p) ==
 \* GET of a media playlist / segment / part; does not change the state
 Req(kind, p, sid, place, ip, auth) ==
     /\ kind \in Kinds /\ p \in Paths \cup {Ghost} /\ sid \in 0..(MaxS + 1) /\ place \in Places
-    /\ ip \in IPs /\ auth \in Auths
+    /\ ip \in AllIPs /\ auth \in Auths
     /\ UNCHANGED vars
 
 Ctl == \/ \E p \in Paths \cup {Ghost}, c \in Creds, ip \in IPs : Open(p, c, ip)
-       \/ \E p \in Paths, ip \in IPs : OpenCDN(p, ip)
+       \/ \E p \in Paths, b \in BearerToks, ip \in BearerIPs : OpenBearer(p, b, ip)
        \/ \E i \in 1..MaxS : Kick(i) \/ Expire(i)
        \/ \E p \in Paths : KickCDN(p)
 Next == Ctl \/ \E kind \in Kinds, p \in Paths \cup {Ghost}, sid \in 0..(MaxS + 1), place \in Places,
-                  ip \in IPs, auth \in Auths : Req(kind, p, sid, place, ip, auth)
+                  ip \in AllIPs, auth \in Auths : Req(kind, p, sid, place, ip, auth)
 Spec    == Init /\ [][Next]_vars
 SpecCtl == Init /\ [][Ctl]_vars        \* the state-changing actions only (walk generation)
 
 \* layer 1 |= layer 2 in every reachable state, for every request
 ServedOnlyToSessions ==
-    \A p \in Paths \cup {Ghost}, sid \in 0..(MaxS + 1), ip \in IPs, auth \in Auths :
+    \A p \in Paths \cup {Ghost}, sid \in 0..(MaxS + 1), ip \in AllIPs, auth \in Auths :
         ServedOK(ServedImpl(p, sid, ip, auth), sess, CDNConfigured, p, sid, ip, auth)
 \* every session was created by an admitted client
 SessionsAdmitted == \A i \in 1..Len(sess) : sess[i].adm
